@@ -405,9 +405,9 @@ def gen(rnd, n, ops=("sc_split", "sc_spell")):
 def corpus():
     base = {"k": "I", "name": "src", "lo": 0.0, "hi": 10.0}
     tg = lambda es, extra=(): {"lo": 0.0, "hi": 10.0, "tiers": [dict(base, es=es)] + list(extra)}
-    # S1-1 (fixed, /repo 829c54c): an entry whose label has no words -> ZeroDivisionError
+    # S1-1 (fixed, /repo 51efa36): an entry whose label has no words -> ZeroDivisionError
     yield {"op": "sc_split", "tg": tg([[1.0, 2.0, ""], [3.0, 4.0, "a b"]]), "src": "src", "tgt": "words", "a": None, "b": None, "grid": True}
-    # S1-2 (fixed, /repo f0e7eef): start + len*n one ulp beyond the entry's end -> the next touching entry overlapped
+    # S1-2 (fixed, /repo 47499b1): start + len*n one ulp beyond the entry's end -> the next touching entry overlapped
     # (TextgridStateError / CollisionError), or the new tier stuck out of the textgrid's span
     yield {"op": "sc_split", "tg": tg([[0.19, 0.662, "w w w w w"], [0.662, 1.162, "d"]]), "src": "src", "tgt": "words", "a": None, "b": None}
     yield {"op": "sc_split", "tg": tg([[0.19, 0.662, "w w w w w"], [0.662, 1.162, "d"]],
